@@ -3,6 +3,7 @@ import MosnVerif.Model.WeightedCluster
 import MosnVerif.Model.LB
 import MosnVerif.Model.EdfConc
 import MosnVerif.Model.WrrHealth
+import MosnVerif.Model.WcLock
 namespace MosnVerif.Drive.C06
 open MosnVerif.Drive MosnVerif.Model.WeightedCluster
 
@@ -218,9 +219,51 @@ def wrrh (wsTok hpTok rr0Tok preTok evTok : String) (impl : List String) : Strin
 
 end WRRHealth
 
+section SharedGenerator
+open MosnVerif.Model.WcLock
+
+def natList (tok : String) : Option (List Nat) := if tok == "-" then some [] else (tok.splitOn ",").mapM String.toNat?
+
+/-- `cwc <name:weight,…> <stream of draws> <before> <k> <after> => <draws handed out, in hand-out order> <max callers inside
+the generator at once> <clusters returned to the k concurrent callers, sorted>`: `before` sequential `ClusterName` calls, `k`
+overlapping ones (each held between the read half and the write half of the injected generator while the others are started),
+`after` sequential ones on ONE weighted route. Model: the thread machine of `Model/WcLock` runs the REGENERATED step program
+of `ClusterName` — the sequential requests one after the other, the concurrent ones step by step in turn (the schedule with the
+most overlap) — and hands out `handed`; with the regenerated program disciplined, at most one caller is inside the generator.
+Predicate (independent of regenerated code): the draws handed out are, as a multiset, exactly the first `before+k+after`
+outputs of the stream (each output used once, none lost), every concurrent caller is returned a configured cluster of
+positive weight. -/
+def cwc (vecTok streamTok bTok kTok aTok : String) (impl : List String) : String :=
+  match parseVec vecTok, natList streamTok, bTok.toNat?, kTok.toNat?, aTok.toNat?, impl with
+  | some l, some stream, some b, some k, some af, [handedTok, miTok, namesTok] =>
+    let n := b + k + af
+    let prog := MosnVerif.Gen.WcLock.clusterName
+    let steps := 2 * prog.length + 2
+    let seqSched (ts : List Nat) : List Nat := ts.flatMap (fun t => List.replicate steps t)
+    let conc := (List.range k).map (· + b)
+    let sched := seqSched (List.range b) ++ (List.range (steps * (k + 1))).flatMap (fun _ => conc) ++
+                 seqSched ((List.range af).map (· + b + k))
+    let sf : Nat → Nat := fun i => stream.getD i 0
+    let c := runSched sf (initConf (fun t => if t < n then prog else []) true) sched
+    let model := handed c
+    let exclusive := disciplined prog
+    let showL (xs : List Nat) : String := if xs.isEmpty then "-" else joinWith "," (xs.map toString)
+    match natList handedTok with
+    | some h =>
+      let names := if namesTok == "-" then [] else namesTok.splitOn ","
+      let namesOk := names.length == k && names.all (fun nm => l.any (fun e => e.1 == nm && e.2 > 0))
+      let spec := stream.length == n && sortNat h == sortNat (stream.take n) && namesOk
+      let agree := h == model && (!exclusive || miTok == "1")
+      s!"{if agree then "A" else "D"} {if spec then "S" else "V"} handed={showL model} exclusive={exclusive}"
+    | none => s!"D V handed={showL model} impl={handedTok}"
+  | _, _, _, _, _, _ => "E E bad-case"
+
+end SharedGenerator
+
 def run (caseToks impl : List String) : String :=
   match caseToks with
   | ["wc", vec, draw] => wc vec draw impl
+  | ["cwc", vec, stream, b, k, a] => cwc vec stream b k a impl
   | ["wrr", ws, rr0, pre] => wrr ws rr0 pre impl
   | ["cwrr", ws, rr0, pre, b, k, a] => cwrr ws rr0 pre b k a impl
   | ["wrrh", ws, hp, rr0, pre, evs] => wrrh ws hp rr0 pre evs impl
